@@ -5,9 +5,9 @@ import os
 from .. import vf
 from . import bindcommon
 
-FAMS = ("leaf", "wrap1", "st1l", "st1w", "st2", "emb", "bigmap", "mapkeys", "rec", "wrap2")
-PARTS_T = {"leaf": 1, "wrap1": 2, "st1": 8, "st1l": 1, "st1w": 8, "st2": 2, "emb": 1, "bigmap": 1, "mapkeys": 1, "rec": 1, "wrap2": 32}
-PARTS_Q = {"leaf": 1, "wrap1": 4, "st1": 16, "st1l": 1, "st1w": 16, "st2": 4, "emb": 1, "bigmap": 1, "mapkeys": 1, "rec": 2, "wrap2": 128}
+FAMS = ("leaf", "wrap1", "st1l", "st1w", "st2", "emb", "bigmap", "mapkeys", "rec", "deepst", "st3", "wrap2")
+PARTS_T = {"leaf": 1, "wrap1": 2, "st1": 8, "st1l": 1, "st1w": 8, "st2": 2, "emb": 1, "bigmap": 1, "mapkeys": 1, "rec": 1, "deepst": 1, "st3": 1, "wrap2": 32}
+PARTS_Q = {"leaf": 1, "wrap1": 4, "st1": 16, "st1l": 1, "st1w": 16, "st2": 4, "emb": 1, "bigmap": 1, "mapkeys": 1, "rec": 2, "deepst": 1, "st3": 1, "wrap2": 128}
 
 
 def plan_for(ctx, fams=FAMS):
